@@ -39,6 +39,8 @@ Fixpoint zeta_pow (k : nat) : c8 :=
   match k with O => c8_1 | S k' => c8_mul (mkC8 0 1 0 0 0) (zeta_pow k') end.
 Definition c8_i := mkC8 0 0 1 0 0.
 Definition c8_neg (x : c8) := mkC8 (- ca x) (- cb x) (- cc x) (- cd x) (ce x).
+(* complex conjugation: zeta -> zeta^-1 = -zeta^3, zeta^2 -> -zeta^2, zeta^3 -> -zeta *)
+Definition c8_conj (x : c8) := mkC8 (ca x) (- cd x) (- cc x) (- cb x) (ce x).
 Definition c8_half := mkC8 1 0 0 0 1.
 (* 1/sqrt 2 = (zeta - zeta^3)/2 *)
 Definition c8_rsqrt2 := mkC8 0 1 0 (-1) 1.
